@@ -1,9 +1,10 @@
-\* 2 replicas: 1 shared entry + 1 creatable id (uuid conflicts), lifecycle, sessions
+\* attribute presence: set / purge of a last-writer-wins attribute racing on two replicas; every arm of the
+\* per-attribute merge (incoming unsent/some/none x local some/none x winner) is exported for replay
 CONSTANTS
   N = 2
   Ids = {1}
-  NewIds = {2}
-  Sids = {1}
+  NewIds = {}
+  Sids = {}
   MaxTs = 3
   MaxRepl = 3
   MaxWrites = 3
@@ -11,9 +12,9 @@ CONSTANTS
   Window = 0
   MergeRestamp = TRUE
   NoSkew = TRUE
-  ArmQuota = 2
+  ArmQuota = 3
   EnableRename = FALSE
-  EnableClear = FALSE
+  EnableClear = TRUE
 INIT Init
 NEXT Next
 VIEW View
